@@ -186,3 +186,36 @@ Example C12_nonvacuous :
   | None => False
   end.
 Proof. vm_compute. repeat split; try reflexivity; eexists; reflexivity. Qed.
+
+(* ---- the main theorems applied, on the document and two-copy patch of C12_nonvacuous (EscapeHTML on: each
+   copy counts 15 bytes): C12_error_only_when_exceeded and C12_no_document under limit 29 (the run stops at
+   the second copy with total 30), C12_total_within_limit under limit 30 (the run ends, total within it),
+   C12_zero_disables under limit 0 ---- *)
+Definition C12_ex_doc := B "{""a"":""<x>""}".
+Definition C12_ex_patch := B "[{""op"":""copy"",""from"":""/a"",""path"":""/b""},{""op"":""copy"",""from"":""/a"",""path"":""/c""}]".
+Definition C12_ex_p : list operation := match api_decode C12_ex_patch with Some p => p | None => [] end.
+Definition C12_ex_o (l : Z) := mkOpts true l false false true [] None.
+Definition C12_ex_r : root := match parse C12_ex_doc with
+                              | Some t => match load_doc (C12_ex_o 0) t with Ok r => r | _ => RNull end
+                              | None => RNull end.
+Definition C12_ex_t : tjson := match parse C12_ex_doc with Some t => t | None => TNull end.
+
+Example C12_main_theorem_applies :
+  (exists op, nth_error C12_ex_p 1 = Some op /\ op_kind op = KCopy /\ (0 < 29)%Z /\ (29 < 30)%Z) /\
+  apply_tree (C12_ex_o 29) [] C12_ex_p C12_ex_t = RErr (Some 1%nat) (ECopyLimit 29 30) /\
+  (exists st', apply_from (C12_ex_o 30) 0 (mkState C12_ex_r 0) C12_ex_p = AOk st' /\ (s_acc st' <= 30)%Z) /\
+  (forall j l a, apply_from (C12_ex_o 0) 0 (mkState C12_ex_r 0) C12_ex_p <> AErr j (ECopyLimit l a)).
+Proof.
+  assert (E : apply_from (C12_ex_o 29) 0 (mkState C12_ex_r 0) C12_ex_p = AErr 1 (ECopyLimit 29 30)) by (vm_compute; reflexivity).
+  split; [|split; [|split]].
+  - destruct (C12_error_only_when_exceeded (C12_ex_o 29) C12_ex_p (mkState C12_ex_r 0) 1%nat 29%Z 30%Z E)
+      as [op [H1 [H2 [H3 [_ H5]]]]].
+    exists op. split; [exact H1|]. split; [exact H2|]. split; [exact H3 | exact H5].
+  - apply (C12_no_document (C12_ex_o 29) [] C12_ex_p C12_ex_t C12_ex_r); [vm_compute; reflexivity | exact E].
+  - destruct (apply_from (C12_ex_o 30) 0 (mkState C12_ex_r 0) C12_ex_p) as [st'| |] eqn:A;
+      [|vm_compute in A; discriminate A|vm_compute in A; discriminate A].
+    exists st'. split; [reflexivity|].
+    apply (C12_total_within_limit (C12_ex_o 30) C12_ex_p (mkState C12_ex_r 0) st' A); [reflexivity | vm_compute; discriminate].
+  - intros j l a. apply C12_zero_disables. reflexivity.
+Qed.
+Print Assumptions C12_main_theorem_applies.
